@@ -102,6 +102,21 @@ Theorem C04_history : forall v d toks st t durs,
 Proof. intros. split; [apply run_inst_tokens|apply run_inst_ok; assumption]. Qed.
 Print Assumptions C04_history.
 
+(* The configured-profile specification the engine-level cases are judged against (each segment
+   starts at the finish of the previous one): no token of a profile, and no unlimited window,
+   lies before the profile's start. *)
+Theorem C04_profile_offsets_not_before_start : forall segs start,
+  Forall seg_wf segs ->
+  Forall (fun o => start <= o) (fst (profile_offsets start segs)) /\
+  Forall (fun w => start <= fst w) (snd (profile_offsets start segs)).
+Proof. exact profile_offsets_ge. Qed.
+Print Assumptions C04_profile_offsets_not_before_start.
+
+Example C04_example_profile :
+  profile_offsets 0 [SConst 200 5 1000; SPause 800; SOnce 1; SUnl 300] =
+  ([0; 200; 400; 600; 800; 1800], [(1800, 300)]).
+Proof. reflexivity. Qed.
+
 (* non-vacuity *)
 Example C04_example_wf :
   wf_call {| lastNow := Some 1210000000; overdue := 1190000000 |} 2710000000
